@@ -16,7 +16,17 @@ RULE = ("exhaustive: all ordered pairs of a 45-value pool (FmtStrs with the same
         "the thorough tier) on a two-run string, for the pool and for seeded random multi-run strings with quotes, "
         "backslashes, newlines, wide and combining characters. non-trivial = distinct pairs with at least one formatted "
         "operand / distinct formatted strings for repr")
-ASSUMPTIONS = ["texts contain no 'ESC [' pair (the repr of such a text would be re-parsed by fmtstr when evaluated; C05/C17)",
+LEVEL_NOTE = ("PROVED in Lean for all inputs of the model: equal FmtStrs hash equal for any hash of str, == is an equivalence "
+              "relation, equal FmtStrs display identically (C19_eq_display, from C01_display), repr(f) is an expression over "
+              "literals, + and the regenerated fmtfuncs names that evaluates to the same characters and displayed formatting "
+              "for every FmtStr with >= 1 run whose formatted run texts contain no ESC '[' (C19_repr_partial; open finding D27 "
+              "with witness theorem C19_repr_witness for the rest). DEFINITIONAL / TIE-ONLY: C19_eq and C19_str restate that "
+              "__eq__ compares str(self) with str(other) - the model says what the code says, the per-run correspondence on "
+              "all pool pairs carries it; the reflected `s == f` dispatch, bytes operands, CPython's hash of str and repr/eval "
+              "of string literals are CPython facts covered by the correspondence only. Trusted: Lean kernel + "
+              "propext/Classical.choice/Quot.sound, the hand-written model, extract.py, the wire codec")
+ASSUMPTIONS = ["a formatted run whose text contains 'ESC [' is re-parsed by fmtstr when its repr is evaluated: open finding D27 "
+               "(footprint: a run with a truthy attribute and ESC '[' in its text); generated rarely",
                "`s == f` with a plain str on the left reaches FmtStr.__eq__ through Python's reflected-operand protocol "
                "(CPython fact, covered by the correspondence only)",
                "hash of a str is CPython's; the model proves hash(f) is a function of str(f)"]
@@ -74,7 +84,31 @@ def mk_cases(ctx):
                     a[name] = v
             cases.append(dict(op="repr", f=[("x'y", a), ("z", {})]))
             n += 1
+    if not ctx.thorough:
+        # one explicit-False style per key, crossed with absent/True for the other styles and 3x3 colours
+        names = ("blink", "bold", "dark", "invert", "italic", "underline")
+        for fi, fname in enumerate(names):
+            for bg, fg in itertools.product((None, 1, 7), repeat=2):
+                for st in itertools.product((None, True), repeat=5):
+                    a = {fname: False}
+                    if bg is not None:
+                        a["bg"] = 40 + bg
+                    if fg is not None:
+                        a["fg"] = 30 + fg
+                    for name, v in zip([x for x in names if x != fname], st):
+                        if v is not None:
+                            a[name] = v
+                    cases.append(dict(op="repr", f=[("x'y", a), ("z", {})]))
+                    n += 1
     ctx.exhaustive.append("repr/eval: %d attribute sets on a two-run string" % n)
+    # D27 (open): a formatted run whose text contains ESC '[' - rare, footprinted
+    for f in ([("\x1b[31mx", {"bold": True})], [("a", {}), ("\x1b[1mb\x1b[0m", {"fg": 31})], [("a\x1b[1mb", {})],
+              [("\x1b[31m", {"bg": 44}), ("x", {})]):
+        cases.append(dict(op="repr", f=f))
+    # bytes operands: FmtStr.__eq__ accepts bytes and compares str(other), i.e. the repr text b'...'
+    for f, b in (([("b'a'", {})], "a"), ([("a", {})], "a"), ([("b'a'", {"fg": 31})], "a"), ([], ""), ([("b''", {})], ""),
+                 ([("b'\\xff'", {})], "\xff")):
+        cases.append(dict(op="eqbytes", f=f, b=b))
     for k, f in P:
         if k == "f":
             cases.append(dict(op="repr", f=f))
@@ -87,7 +121,7 @@ def mk_cases(ctx):
             if r.random() < 0.3:
                 a[r.choice(("bold", "dark", "italic", "underline", "blink", "invert"))] = r.random() < 0.5
             f.append((r.choice(texts), a))
-        if "\x1b[" in "".join(t for t, _ in f):
+        if any("\x1b[" in t for t, _ in f):
             continue
         cases.append(dict(op="repr", f=f))
     return cases
@@ -105,6 +139,8 @@ def line(c):
                                 wire.enc_chunks(b[1]) if b[0] == "f" else wire.enc_tf(b[1]))
     if op == "eqother":
         return "eq %s other x" % wire.enc_chunks(c["f"])
+    if op == "eqbytes":
+        return "eq %s bytes %s" % (wire.enc_chunks(c["f"]), wire.enc_tf(str(c["b"].encode("latin-1"))))
     if op == "hash":
         return "hashkey %s" % wire.enc_chunks(c["f"])
     if op == "repr":
@@ -137,6 +173,8 @@ def _impl(c):
     op = c["op"]
     if op == "eq":
         return "ok %d" % (1 if (real(c["a"]) == real(c["b"])) else 0)
+    if op == "eqbytes":
+        return "ok %d" % (1 if mk_fmt(c["f"]) == c["b"].encode("latin-1") else 0)
     if op == "eqother":
         r = mk_fmt(c["f"]).__eq__(5)
         return "ok NotImplemented" if r is NotImplemented else "ok %d" % r
@@ -215,6 +253,8 @@ def _oracle(c):
         if (x in [y]) != same:
             return "list membership disagrees with =="
         return None
+    if op == "eqbytes":
+        return None                           # the statement is silent about bytes operands: correspondence only
     if op == "eqother":
         f = mk_fmt(c["f"])
         if (f == 5) is not False or (f != 5) is not True or (f == None) is not False:  # noqa: E711
@@ -257,6 +297,10 @@ def oracle(c):
 
 
 def footprint(c, what):
+    """D27 (open): a run with at least one truthy attribute whose text contains ESC '[' (its literal is re-parsed by
+    fmtstr inside the helper call when the repr is evaluated)"""
+    if c["op"] == "repr" and any("\x1b[" in t and any(v for v in a.values()) for t, a in c["f"]):
+        return "D27"
     return None
 
 
@@ -270,7 +314,7 @@ def nontrivial(c):
 
 def check(ctx):
     cases = mk_cases(ctx)
-    ctx.tie("C19/eq", [c for c in cases if c["op"] in ("eq", "eqother")], line, impl)
+    ctx.tie("C19/eq", [c for c in cases if c["op"] in ("eq", "eqother", "eqbytes")], line, impl)
     ctx.tie("C19/hash", [c for c in cases if c["op"] == "hash"], line, impl, None, canon_hash_model)
     reprs = [c for c in cases if c["op"] == "repr"]
     ctx.tie("C19/repr", reprs, line, impl)
